@@ -893,6 +893,12 @@ def c09(tier):
                 reads.append(q)
                 if not enc and not (e["flags"] & 8):
                     reads.append({"i": i, "via": "stream", "bufs": bf, "under": un, "exp": exp})
+            for api in ("read_to_end", "read_to_end0", "copy", "read_exact", "bytes"):
+                q = {"i": i, "via": "seek", "bufs": [4096], "under": rnd.choice(SCHED_UNDER), "exp": exp, "api": api}
+                if enc:
+                    q["pw"] = pws[0].hex()
+                    q["pwkind"] = "right"
+                reads.append(q)
         scs.append({"sc": "s-%s" % name, "hex": b.hex(), "reads": reads})
         # one short read at every byte position of the archive (exhaustive for the small seeds)
         step = 1 if (tier == "thorough" or name in ("plain", "zc")) else 3
@@ -1011,6 +1017,12 @@ def c04(tier):
         if streamable(v, i):
             reads.append({"i": i, "via": "stream", "bufs": rnd.choice(SCHED_BUFS), "under": rnd.choice(SCHED_UNDER), "exp": exp,
                           "dmg": {"data": "data", "ccrc": "none", "lcrc": "crc"}[site]})
+        # the other std ways of reading to the end go through the same integrity check
+        if rnd.random() < 0.5:
+            q2 = dict(q, api=rnd.choice(["read_to_end", "read_to_end0", "copy", "read_exact", "bytes"]), under={})
+            reads.append(q2)
+            if streamable(v, i):
+                reads.append(dict(reads[1], api=rnd.choice(["read_to_end", "copy", "read_exact"]), under={}))
         scs.append({"sc": "f-%s-%d-%s-%d.%d" % (name, i, site, pos, bit), "hex": flip(b, pos, bit).hex(), "reads": reads,
                     "note": "bit %d of byte %d (%s of entry %d)" % (bit, pos, site, i)})
     # multi-byte damage, payloads swapped between entries, truncated payloads
